@@ -26,6 +26,7 @@ func main() {
 	shim := flag.String("shim", "/verif/mc/shim/vsync.go", "shim source")
 	shimAtomic := flag.String("shimatomic", "/verif/mc/shimatomic/vatomic.go", "sync/atomic shim source")
 	out := flag.String("out", "/verif/.build", "output directory")
+	goMode := flag.String("go", "all", "which go statements become explorer threads: all, lit (function literals only), off")
 	flag.Parse()
 
 	modPath := modulePath(filepath.Join(*repo, "go.mod"))
@@ -75,6 +76,9 @@ func main() {
 				changed = true
 			}
 		}
+		if *goMode != "off" && rewriteGo(f, shimImport, *goMode == "all") {
+			changed = true
+		}
 		if !changed {
 			return nil
 		}
@@ -93,7 +97,100 @@ func main() {
 	replace[filepath.Join(*repo, "verifatomic", "vatomic.go")] = *shimAtomic
 	js, _ := json.MarshalIndent(map[string]any{"Replace": replace}, "", " ")
 	must(os.WriteFile(filepath.Join(*out, "overlay.json"), js, 0o644))
-	fmt.Fprintf(os.Stderr, "overlaytool: %d file(s) rewritten to use %s\n", rewritten, shimImport)
+	os.WriteFile(filepath.Join(*out, "overlay.gomode"), []byte(*goMode+"\n"), 0o644)
+	fmt.Fprintf(os.Stderr, "overlaytool: %d file(s) rewritten to use %s (go statements: %s)\n", rewritten, shimImport, *goMode)
+}
+
+// rewriteGo turns `go f(a, b)` into `verifgo.Go2(f, a, b)`: f, a and b are still evaluated by
+// the goroutine that executes the statement, and the shim decides whether the call runs as
+// a thread of the explorer or as an ordinary goroutine.  Calls the Go0..Go6 helpers cannot
+// express (variadic calls, more than six arguments, function literals with results) are left
+// alone; with all=false only function literals are rewritten (their signature is visible).
+func rewriteGo(f *ast.File, shimImport string, all bool) bool {
+	n := 0
+	ast.Inspect(f, func(node ast.Node) bool {
+		var list *[]ast.Stmt
+		switch b := node.(type) {
+		case *ast.BlockStmt:
+			list = &b.List
+		case *ast.CaseClause:
+			list = &b.Body
+		case *ast.CommClause:
+			list = &b.Body
+		}
+		if list == nil {
+			return true
+		}
+		for i, st := range *list {
+			if ls, ok := st.(*ast.LabeledStmt); ok {
+				if g, ok := ls.Stmt.(*ast.GoStmt); ok {
+					if r := goCall(g, all); r != nil {
+						ls.Stmt = r
+						n++
+					}
+				}
+				continue
+			}
+			g, ok := st.(*ast.GoStmt)
+			if !ok {
+				continue
+			}
+			if r := goCall(g, all); r != nil {
+				(*list)[i] = r
+				n++
+			}
+		}
+		return true
+	})
+	if n == 0 {
+		return false
+	}
+	spec := &ast.ImportSpec{Name: ast.NewIdent("verifgo"), Path: &ast.BasicLit{Kind: token.STRING, Value: strconv.Quote(shimImport)}}
+	decl := &ast.GenDecl{Tok: token.IMPORT, Specs: []ast.Spec{spec}}
+	// after the existing import declarations
+	at := 0
+	for i, d := range f.Decls {
+		if gd, ok := d.(*ast.GenDecl); ok && gd.Tok == token.IMPORT {
+			at = i + 1
+		}
+	}
+	f.Decls = append(f.Decls[:at], append([]ast.Decl{decl}, f.Decls[at:]...)...)
+	f.Imports = append(f.Imports, spec)
+	return true
+}
+
+func goCall(g *ast.GoStmt, all bool) ast.Stmt {
+	call := g.Call
+	if call.Ellipsis.IsValid() || len(call.Args) > 6 {
+		return nil
+	}
+	fun := call.Fun
+	for {
+		p, ok := fun.(*ast.ParenExpr)
+		if !ok {
+			break
+		}
+		fun = p.X
+	}
+	if lit, ok := fun.(*ast.FuncLit); ok {
+		if lit.Type.Results != nil && len(lit.Type.Results.List) > 0 {
+			return nil
+		}
+		if ps := lit.Type.Params; ps != nil {
+			for _, fld := range ps.List {
+				if _, variadic := fld.Type.(*ast.Ellipsis); variadic {
+					return nil
+				}
+			}
+		}
+	} else if !all {
+		return nil
+	}
+	args := append([]ast.Expr{call.Fun}, call.Args...)
+	return &ast.ExprStmt{X: &ast.CallExpr{
+		Fun:  &ast.SelectorExpr{X: ast.NewIdent("verifgo"), Sel: ast.NewIdent("Go" + strconv.Itoa(len(call.Args)))},
+		Args: args,
+	}}
 }
 
 func modulePath(gomod string) string {
